@@ -368,6 +368,17 @@ fn history(seed: u64, h: u64, steps: u64) {
             }
             a += 1;
         }
+        // two newcomers against the full, measured inbound side
+        let mut extra = 0;
+        while a <= n && extra < 2 {
+            w.next_sid += 1;
+            let sid = SessionId::new(w.next_sid);
+            accept_ev(&mut w, &mut rng, a, true, sid);
+            if w.reg.get_peer(sid).is_some() {
+                extra += 1;
+            }
+            a += 1;
+        }
     }
     for _ in 0..steps {
         let r = rng.below(100);
